@@ -176,7 +176,7 @@ def model(entries, cmd, pre, answers):
 
 def describe(space, case):
     ents = ", ".join("%s:%s%s%s" % (e["k"], e["path"], e["name"], ("->" + e["target"]) if e["k"] == "l" else ("(%o)" % e["perms"]) if "perms" in e else "") for e in case["entries"])
-    return "C06 %s cmd=%s uid=%s [%s] pre=%s answers=%r filters=%s" % (space, case["cmd"], case.get("uid", 0), ents, [p[0] for p in case.get("pre", [])], case.get("answers", ""), case.get("filters", []))
+    return "C06 %s cmd=%s uid=%s%s%s [%s] pre=%s answers=%r filters=%s" % (space, case["cmd"], case.get("uid", 0), " umask=%o" % case["umask"] if case.get("umask") is not None else "", " nofile=%d" % case["nofile"] if case.get("nofile") else "", ents, [p[0] for p in case.get("pre", [])], case.get("answers", ""), case.get("filters", []))
 
 
 def compare(tree_model, loose, actual, viol, site_prefix="c06"):
@@ -249,7 +249,13 @@ def run_case(runner, space, case):
         sel = [e for e in case["entries"] if any(listrender.glob_match(f, (e["path"] + e["name"]).encode("latin1")) for f in filters)]
     model_pre = [(p[0], p[1], p[2], p[3], p[4]) for p in pre]
     tree, loose, prompts = model(sel, cmd, model_pre, answers)
-    r = runner.run(arc, [cmd, "../archive.lzh"] + filters, stdin=stdin, pre=pre, uid=case.get("uid", 0))
+    if case.get("umask") is not None:
+        # the mode of directories the archive does not list (created on the way) follows the process umask; the statement is
+        # about recorded permissions only
+        for node in tree.values():
+            if node.get("implicit"):
+                node["mode"] = None
+    r = runner.run(arc, [cmd, "../archive.lzh"] + filters, stdin=stdin, pre=pre, uid=case.get("uid", 0), umask=case.get("umask"), nofile=case.get("nofile"))
     compare(tree, loose, r.tree, viol)
     # a dangerous link that lands in a directory whose recorded permissions forbid writing cannot be created at the end: outside the guarantee
     ro_dirs = [e["path"] for e in sel if e["k"] == "d" and not (e.get("perms", 0o755) & 0o200)]
